@@ -33,7 +33,7 @@ fn facts_for(rec: (Kind, u32, &str), mask: u32, ids: &[u32]) -> Vec<AnnFact> {
 
 /// The annotation groups derived from one subset S of the nodes:
 /// g1 <- S, g2 <- complement(S), o1 <- rot1(S), r1 <- rot2(S), r2 <- every term, plus bare g3, o2, r3, r4
-/// and four bare records of minimal size (totals: 5 genes, 3 OMIM, 5 ORPHA).
+/// and five bare records of minimal size (totals: 6 genes, 3 OMIM, 5 ORPHA).
 pub struct AnnGroups {
     pub g1: Vec<AnnFact>,
     pub g2: Vec<AnnFact>,
@@ -64,6 +64,8 @@ impl AnnGroups {
                 Facts::ann(Kind::Omim, 600_034, "", None),
                 Facts::ann(Kind::Gene, 3535, "G5", None),
                 Facts::ann(Kind::Orpha, 8181, "", None),
+                // (a sixth gene: the three totals differ, so that a total taken from another kind is visible)
+                Facts::ann(Kind::Gene, 3737, "G7", None),
             ],
         }
     }
@@ -116,14 +118,10 @@ pub fn via_builder(ctx: &mut Ctx, f: &Facts, r: &RefOnt, mode: Mode, what: &str)
 /// Run the facts through the Builder with rejected calls (naming absent terms) interleaved, and compare with
 /// the model of the valid facts alone: a call that returns an error is not a fact.
 pub fn via_builder_rejected(ctx: &mut Ctx, f: &Facts, r: &RefOnt, mode: Mode, what: &str) -> Option<crate::obs::Obs> {
-    let absent: Vec<u32> = [3u32, 0, 9_999_999, 10_000_000, u32::MAX, 2, 119].iter().copied().filter(|x| !f.terms.iter().any(|t| t.id == *x)).collect();
+    // absent ids inside the id space only: what a call does with an id >= 10^7 (refuse or panic) is C15's question
+    let absent: Vec<u32> = [3u32, 0, 9_999_999, 2, 119, 4096, 1_048_576].iter().copied().filter(|x| !f.terms.iter().any(|t| t.id == *x)).collect();
     ctx.transitions(3 * f.n_steps());
     match drive::build_with_rejected(f, mode, &absent) {
-        Err(e) if e.starts_with("accepted:") => {
-            ctx.exec();
-            ctx.violation("Builder", "[builder, rejected calls interleaved] a call naming an absent term returns Ok", json!({"case": f.to_json(), "observed": e, "order": what}));
-            None
-        }
         Err(e) => {
             ctx.exec();
             ctx.violation("Builder", "[builder, rejected calls interleaved] construction fails on valid facts", json!({"case": f.to_json(), "observed": e, "order": what, "absent_ids_used": absent}));
@@ -146,6 +144,13 @@ pub fn via_binary(ctx: &mut Ctx, f: &Facts, o: &EncOpts, what: &str) -> Option<c
     let case = || json!({"facts": pf.to_json(), "format_version": version, "order": what, "bytes_len": bytes.len()});
     match drive::from_bytes(&bytes) {
         Ok(Ok(ont)) => check_against_model(ctx, &ont, &r, Mode::Defaults, &format!("binary v{version}"), &case),
+        // ids inside records in the order of the fact list (not ascending as the crate's writer emits them): whether a
+        // reader has to accept that is not stated - refuse-or-exact
+        Ok(Err(_)) | Err(_) if o.ids_in_list_order => {
+            ctx.exec();
+            ctx.bump("refused: ids inside a record not ascending", 1);
+            None
+        }
         Ok(Err(e)) => {
             ctx.exec();
             ctx.violation("Ontology::from_bytes", &format!("[binary v{version}] rejects a file laid out as documented"), json!({"case": case(), "observed": e}));
